@@ -3,4 +3,5 @@ let () =
   | [| _; "num" |] -> Run_num.run ()
   | [| _; "kv" |] -> Run_kv.run ()
   | [| _; "app" |] -> Run_app.run ()
+  | [| _; "ms" |] -> Run_ms.run ()
   | _ -> prerr_endline "usage: modelrun <engine> < ops"; exit 2
